@@ -500,6 +500,20 @@ def gen_close(ctx):
     return batches, kinds
 
 
+def longer_watchdog(line, impl, model):
+    """`peers run <max> <watchdog ms> <script>`: an implementation answer with a "blocked" call where the model has none may
+    only mean that the machine was too busy for the 300 ms watchdog: the same script once more with ten times the patience."""
+    a = line.split(" ")
+    if len(a) >= 5 and a[0] == "peers" and a[1] in ("run", "run0") and "blocked" in impl and impl != model:
+        try:
+            w = int(a[3])
+        except ValueError:
+            return None
+        if w <= 1000:
+            return " ".join(a[:3] + [str(10 * w)] + a[4:])
+    return None
+
+
 def run(ctx):
     os.environ["VERIF_DRIVER"] = "1"
     exe = vlib.go_test_build("./client/lib", name="c15_client_lib.test")
@@ -546,12 +560,13 @@ def run(ctx):
     # directed scenarios first; if they already fail, the bulk is cut short (a defect that makes calls
     # block costs one watchdog period per op, which would otherwise take very long)
     nd = sum(1 for k in kinds if k.startswith("directed"))
-    ctx.correspond(exe, lines[:nd], kinds[:nd], label="peers-directed", prop=prop, key_of=key_of, impl_args=TEST_ARGS, crosscheck=10)
+    ctx.correspond(exe, lines[:nd], kinds[:nd], label="peers-directed", prop=prop, key_of=key_of, impl_args=TEST_ARGS, crosscheck=10,
+                   retry_if=longer_watchdog)
     rest_l, rest_k = lines[nd:], kinds[nd:]
     if ctx.violations:
         rest_l, rest_k = rest_l[:300], rest_k[:300]
         ctx.extra["bulk_cut_short_after_directed_failures"] = True
-    ctx.correspond(exe, rest_l, rest_k, label="peers", prop=prop, key_of=key_of, impl_args=TEST_ARGS)
+    ctx.correspond(exe, rest_l, rest_k, label="peers", prop=prop, key_of=key_of, impl_args=TEST_ARGS, retry_if=longer_watchdog)
     ctx.correspond(exe, c_lines, c_kinds, label="connect", prop=prop, key_of=key_of, impl_args=TEST_ARGS, crosscheck=20)
     os.makedirs(vlib.TMP, exist_ok=True)
 
